@@ -507,6 +507,7 @@ func C10(tier rt.Tier) int {
 		}()
 	}
 	wg.Wait()
+	combProofs(rep)
 	if forgedKnown > 0 {
 		for i := int64(0); i < forgedKnown; i++ {
 			rep.KnownHit("C10-weights-not-bound", knownWitness, "VerifyBlockProof returns the trusted root with another key's value")
